@@ -65,7 +65,8 @@ func addGuarded(s *Stack, src domains.BlockHeaderSource) (out string) {
 	return AddOutcome(s, src)
 }
 
-// C05 case: history line with x=<mode>:<i>:<k>   mode = kill | ckill | sfault | fault | cont
+// C05 case: history line with x=<mode>:<i>:<k>   mode = kill | ckill | sfault | fault | cont | ikill
+//   ikill: killed during the very first start, after the schema migrations and before genesis is inserted (i = k = 0)
 //   sfault: a SQLite trigger aborts statement kind k (0 demote / 1 promote / 2 insert) while header i is added
 //   kill/fault/cont count repository write calls; ckill counts committed SQLite transactions (commit hook)
 // obs: pre:<rows>|crash:<outcome>/<rows after restart>|redeliver:<o,o,..>/<rows>|clean:<rows>
@@ -109,6 +110,7 @@ func runC05(c *Ctx) error {
 		return RowsString(r, m), nil
 	}
 	cleanCache := map[string]string{}
+	nfresh := 0
 	// returns ok=false when write k of sub i does not exist (nothing to crash)
 	doCase := func(h *History, mode string, i, k int, tag string) (bool, error) {
 		hh := &History{Forbidden: h.Forbidden, Subs: h.Subs, X: []string{fmt.Sprintf("%s:%d:%d", mode, i, k)}}
@@ -130,6 +132,43 @@ func runC05(c *Ctx) error {
 				return false, err
 			}
 			cleanCache[base] = clean
+		}
+		if mode == "ikill" {
+			// the process dies during its FIRST start, between the schema migrations and the (separate) transaction
+			// that inserts genesis: the crash image is a migrated database with an empty headers table.  Built on a
+			// database file of its own: database.Init (real), then the genesis transaction is undone.
+			nfresh++
+			fs, err := NewStack(StackOpts{Dir: c.TmpDir(fmt.Sprintf("c05-fresh-%d", nfresh))})
+			if err != nil {
+				return false, err
+			}
+			if _, err := fs.DB.Exec("DELETE FROM headers"); err != nil {
+				fs.Close()
+				return false, err
+			}
+			fs2, err := fs.Reopen() // the restart: database.Init on the same file
+			if err != nil {
+				return false, fmt.Errorf("restart of the first-start crash image: %w", err)
+			}
+			defer fs2.Close()
+			fs2.SetForbidden(m.ForbiddenHashes())
+			r0, err := fs2.DumpHeaders()
+			if err != nil {
+				return false, err
+			}
+			red := []string{}
+			for j := range hh.Subs {
+				red = append(red, AddOutcome(fs2, m.Src[j]))
+			}
+			r1, err := fs2.DumpHeaders()
+			if err != nil {
+				return false, err
+			}
+			obs := fmt.Sprintf("pre:|crash:X/%s|redeliver:%s/%s|clean:%s", RowsString(r0, m), strings.Join(red, ","), RowsString(r1, m), clean)
+			c.Case(hh.Line(), obs)
+			c.Count("mode:" + mode)
+			c.Count("gen:" + tag)
+			return true, nil
 		}
 		if err := s.ResetHeaders(); err != nil {
 			return false, err
@@ -330,6 +369,13 @@ func runC05(c *Ctx) error {
 				return err
 			}
 		} else if err := all(h, "corpus", []string{"kill", "ckill", "sfault", "fault", "cont"}, &big); err != nil {
+			return err
+		}
+	}
+	// killed during the very first start (schema migrated, genesis not yet inserted), then restart and delivery
+	for n := 0; n < c.Pick(4, 40); n++ {
+		o := GenOpts{N: 2 + c.Rng.Intn(8), PUnknown: 0.05, PLate: 0.08, PDup: 0.05, PForbidden: 0.05, Positive: true, Deep: true}
+		if _, err := doCase(GenHistory(c.Rng, o), "ikill", 0, 0, "first-start"); err != nil {
 			return err
 		}
 	}
